@@ -21,7 +21,7 @@ CFG = dict(
          "formats (records with shared/adjacent/extreme addresses, zero counts, alloc columns, every heap header variant, rates none/1/2/3/small/524288 (effective rate exactly 1 included) x tiny 1-8 byte blocks with counts up to 40000, "
          "attribute blocks, same-as-previous threads, all four CPU word layouts with shared second frames at the len/32 margin, "
          "memory maps in /proc/maps, brief and gperftools form with adjacent/offset/main-binary/hugepage/non-executable entries), "
-         "plus an END-TO-END layer (the printed documents, plain and gzip-compressed, through driver.PProf -traces with every way of naming a column on the command line, through interactive sessions with histories of sample_index= / mean= / <type>, total_<type>, mean_<type> shortcuts, and through the web /top handler with si/mean URL parameters; the printed legend, values and addresses are parsed back and compared with the glue model applied to the documented conversion) Java heapz/contentionz documents through the driver (drop/keep-frame tables applied by the real RemoveUninteresting/Prune; printed traces compared with the prune model) and deterministic streams generated on every run (incl. versioned-library names in front of the executable for the main-binary heuristic) (runs of 2-4 EQUAL consecutive records in every format x handler frame(s) x duplicated leaf x all four CPU word layouts; CPU documents with >= 32 records whose tolerated outliers carry the handler address deeper or as leaf; one object as 3-4 contiguous map segments in every map form); its layout variants (CRLF, no final newline, column alignment, interleaved comments, symbolized thread lines) and 1-3 "
+         "plus an END-TO-END layer (the printed documents, plain and gzip-compressed, through driver.PProf -traces with every way of naming a column on the command line, through interactive sessions with histories of sample_index= / mean= / <type>, total_<type>, mean_<type> shortcuts, and through the web /top handler with si/mean URL parameters; the printed legend, values and addresses are parsed back and compared with the glue model applied to the documented conversion) Java heapz/contentionz documents through the driver (drop/keep-frame tables applied by the real RemoveUninteresting/Prune; printed traces compared with the prune model) and deterministic streams generated on every run (incl. versioned-library names in front of the executable for the main-binary heuristic, and mapping file names with special characters: =, :, @, (deleted), brackets, $, non-ASCII, very long paths, in every map form) (runs of 2-4 EQUAL consecutive records in every format x handler frame(s) x duplicated leaf x all four CPU word layouts; CPU documents with >= 32 records whose tolerated outliers carry the handler address deeper or as leaf; one object as 3-4 contiguous map segments in every map form); its layout variants (CRLF, no final newline, column alignment, interleaved comments, symbolized thread lines) and 1-3 "
          "token-level mutations; distinct = sha256 of the input term; non-trivial = the document has at least one record",
     spec_what="legacy profile does not convert to the documented samples / addresses / values / block-size label / mappings",
     trusted_base=["end-to-end layer: text parser of -traces output and of the /top page JSON in the harness; values are read back as integers (-unit=nanoseconds keeps every legacy unit unscaled)", "hand-written recognisers for the regular expressions of legacy_profile.go (validated against Go regexp on every case)",
